@@ -40,9 +40,14 @@ CvTerminated(tr) ==
   /\ tr[Len(tr)].m = CvEOT
   /\ \A i \in 1..(Len(tr) - 1) : tr[i].m # CvEOT
 
+\* a source track that was never closed (no end-of-track at all) is a value the public API builds just as well (Track.Add
+\* without Track.Close; the library tolerates it and terminates such a track on writing): all its events are messages
+CvUnterminated(tr) == \A i \in 1..Len(tr) : tr[i].m # CvEOT
+CvSrcItems(tr) == IF CvUnterminated(tr) THEN CvAbs(tr) ELSE CvItems(tr)
+
 \* ---- the domain of the property --------------------------------------------------------------------
 CvInDomain(src) ==
-  /\ CvTerminated(src.track)
+  /\ CvTerminated(src.track) \/ CvUnterminated(src.track)
   /\ \A i \in 1..Len(src.track) : CvWellFormed(src.track[i].m) /\ src.track[i].d >= 0 /\ src.track[i].d < 268435456
   /\ Len(src.track) <= 1000
   \* the whole file stays below CvBig ticks (sum of the deltas; CvPlus saturates, so this is safe to evaluate)
@@ -56,7 +61,7 @@ CvDivKept(src, dest) == dest.fmt = 1 /\ dest.div = src.div
 CvCount(s, x) == Cardinality({i \in DOMAIN s : s[i] = x})
 CvSameBag(a, b) == Len(a) = Len(b) /\ \A x \in {a[i] : i \in DOMAIN a} : CvCount(a, x) = CvCount(b, x)
 CvAllItems(tracks) == FlattenSeq([i \in 1..Len(tracks) |-> CvItems(tracks[i])])
-CvNothingLost(src, dest) == CvSameBag(CvItems(src.track), CvAllItems(dest.tracks))
+CvNothingLost(src, dest) == CvSameBag(CvSrcItems(src.track), CvAllItems(dest.tracks))
 
 \* ---- clause: channel messages on a track of their own channel, everything else on the first track --
 \* a track holds either no channel message at all, or only channel messages of ONE channel; a track that holds
@@ -83,7 +88,7 @@ CvBelongs(it, x) ==
   ELSE IF CvIsChan(it[1].m) THEN CvIsChan(x.m) /\ CvChan(x.m) = CvChan(it[1].m)
   ELSE ~CvIsChan(x.m)
 CvOrderKept(src, dest) ==
-  LET s == CvItems(src.track) IN
+  LET s == CvSrcItems(src.track) IN
   \A i \in 1..Len(dest.tracks) :
     LET it == CvItems(dest.tracks[i]) IN it = SelectSeq(s, LAMBDA x : CvBelongs(it, x))
 
@@ -112,7 +117,7 @@ CvChannels(items) == {CvChan(items[i].m) : i \in {k \in DOMAIN items : CvIsChan(
 CvOthers(items) == SelectSeq(items, LAMBDA x : ~CvIsChan(x.m))
 CvOfChan(items, c) == SelectSeq(items, LAMBDA x : CvIsChan(x.m) /\ CvChan(x.m) = c)
 CvConvert(src, order, eot1, eotc) ==
-  LET items == CvItems(src.track) IN
+  LET items == CvSrcItems(src.track) IN
   [fmt |-> 1, div |-> src.div,
    tracks |-> <<CvClose(CvRedelta(CvOthers(items)), eot1)>>
               \o [k \in 1..Len(order) |-> CvClose(CvRedelta(CvOfChan(items, order[k])), eotc)]]
